@@ -101,23 +101,23 @@ COMMON_LEAVES = ["i32", "i32", "i32", "u8", "f64", "str", "bool", "char", "Strin
 ODD_LEAVES = ["ML", "Pad", "AltAware", "Chunky", "WF", "Edge", "Edge"]
 
 LEAF_RS = r'''
-pub struct ML;
+#[derive(Clone, Default, PartialEq)] pub struct ML;
 impl core::fmt::Debug for ML { fn fmt(&self, f: &mut core::fmt::Formatter<'_>) -> core::fmt::Result { f.write_str("l1\nl2") } }
-pub struct Pad(pub &'static str);
+#[derive(Clone, Default, PartialEq)] pub struct Pad(pub &'static str);
 impl core::fmt::Debug for Pad { fn fmt(&self, f: &mut core::fmt::Formatter<'_>) -> core::fmt::Result { f.pad(self.0) } }
-pub struct AltAware;
+#[derive(Clone, Default, PartialEq)] pub struct AltAware;
 impl core::fmt::Debug for AltAware { fn fmt(&self, f: &mut core::fmt::Formatter<'_>) -> core::fmt::Result {
     if f.alternate() { f.write_str("ALT\n  x")?; if f.width().is_some() { f.write_str("+w")?; } Ok(()) } else { f.write_str("cmp") } } }
-pub struct Chunky;
+#[derive(Clone, Default, PartialEq)] pub struct Chunky;
 impl core::fmt::Debug for Chunky { fn fmt(&self, f: &mut core::fmt::Formatter<'_>) -> core::fmt::Result {
     use core::fmt::Write as _;
     f.write_str("a")?; f.write_char('\n')?; f.write_str("b\n")?; f.write_str("")?; f.write_char('c')?; f.write_str("\n\nd") } }
-pub struct WF(pub i32);
+#[derive(Clone, Default, PartialEq)] pub struct WF(pub i32);
 impl core::fmt::Debug for WF { fn fmt(&self, f: &mut core::fmt::Formatter<'_>) -> core::fmt::Result {
     write!(f, "<{:>3}|{}>", self.0, "z") } }
-pub struct Edge(pub &'static str);
+#[derive(Clone, Default, PartialEq)] pub struct Edge(pub &'static str);
 impl core::fmt::Debug for Edge { fn fmt(&self, f: &mut core::fmt::Formatter<'_>) -> core::fmt::Result { f.write_str(self.0) } }
-pub struct Fail;
+#[derive(Clone, Default, PartialEq)] pub struct Fail;
 impl core::fmt::Debug for Fail { fn fmt(&self, f: &mut core::fmt::Formatter<'_>) -> core::fmt::Result {
     f.write_str("F")?; Err(core::fmt::Error) } }
 '''
@@ -169,9 +169,15 @@ def ty_rs(case, t):
         return "(" + "".join(ty_rs(case, x) + ", " for x in t[1]) + ")"
     if k == "param":
         return t[1]
+    if k == "lref":
+        return "&%s %s" % (t[1], ty_rs(case, t[2]))
+    if k == "carr":
+        return "[%s; %s]" % (ty_rs(case, t[1]), t[2])
     if k == "adt":
         it = case["items"][t[1]]
-        return id_rs(it["name"]) + ("<" + ", ".join(ty_rs(case, x) for x in t[2]) + ">" if t[2] else "")
+        g = it.get("generics") or {}
+        args = ["'static" for _ in g.get("lts", [])] + [ty_rs(case, x) for x in t[2]] + [str(v) for (_, v) in g.get("consts", [])]
+        return id_rs(it["name"]) + ("<" + ", ".join(args) + ">" if args else "")
     raise ValueError(t)
 
 
@@ -293,20 +299,37 @@ def fields_rs(case, fs, with_attrs, vis=""):
     return " { " + ", ".join(attr(f) + vis + id_rs(f["name"]) + ": " + ty_rs(case, f["ty"]) for f in fs["list"]) + " }"
 
 
-def generics_rs(it):
-    ps = list(it["params"])
-    return "<" + ", ".join(ps) + ">" if ps else ""
+def generics_rs(it, decl=True, extra_bound=None):
+    """`<'a, T: Clone, U, const N: usize>` (declaration) or `<'a, T, U, N>` (use)"""
+    g = it.get("generics") or {}
+    out = list(g.get("lts", []))
+    for p in it["params"]:
+        bs = list(g.get("inline", {}).get(p, [])) if decl else []
+        if decl and extra_bound:
+            bs = [extra_bound] + bs
+        out.append(p + (": " + " + ".join(bs) if bs else ""))
+    for (n, _) in g.get("consts", []):
+        out.append("const %s: usize" % n if decl else n)
+    return "<" + ", ".join(out) + ">" if out else ""
+
+
+def where_rs(it):
+    w = (it.get("generics") or {}).get("where", [])
+    return " where " + ", ".join(w) if w else ""
 
 
 def item_rs(case, it, with_attrs, derive=True):
     g = generics_rs(it)
+    w = where_rs(it)
     d = "#[derive(Debug)] " if derive else ""
     if it["kind"] == "struct":
         fs = it["fields"]
         body = fields_rs(case, fs, with_attrs, "pub ")
-        return "%spub struct %s%s%s%s" % (d, id_rs(it["name"]), g, body, "" if fs["kind"] == "named" else ";")
+        if fs["kind"] == "named":
+            return "%spub struct %s%s%s%s" % (d, id_rs(it["name"]), g, w, body)
+        return "%spub struct %s%s%s%s;" % (d, id_rs(it["name"]), g, body, w)
     vs = ", ".join(id_rs(v["name"]) + fields_rs(case, v["fields"], with_attrs) for v in it["variants"])
-    return "%spub enum %s%s { %s }" % (d, id_rs(it["name"]), g, vs)
+    return "%spub enum %s%s%s { %s }" % (d, id_rs(it["name"]), g, w, vs)
 
 
 def handwritten_chain(fs, name_str):
@@ -333,10 +356,9 @@ def handwritten_chain(fs, name_str):
 
 
 def handwritten_impl(case, it):
-    ps = it["params"]
-    g = "<" + ", ".join("%s: core::fmt::Debug" % p for p in ps) + ">" if ps else ""
-    head = "impl%s core::fmt::Debug for %s%s { fn fmt(&self, f: &mut core::fmt::Formatter<'_>) -> core::fmt::Result { " % (
-        g, id_rs(it["name"]), generics_rs(it))
+    g = generics_rs(it, True, "core::fmt::Debug")
+    head = "impl%s core::fmt::Debug for %s%s%s { fn fmt(&self, f: &mut core::fmt::Formatter<'_>) -> core::fmt::Result { " % (
+        g, id_rs(it["name"]), generics_rs(it, False), where_rs(it))
     if it["kind"] == "struct":
         fs = it["fields"]
         lets = "".join("let %s = &self.%s; " % (binding(fs, i), str(i) if fs["kind"] == "tuple" else id_rs(f["name"]))
@@ -613,6 +635,10 @@ class Gen:
             return ["arr", [self.value(case, t[1], env) for _ in range(t[2])]]
         if k in ("box", "ref"):
             return [k, self.value(case, t[1], env)]
+        if k == "lref":
+            return ["ref", self.value(case, t[2], env)]
+        if k == "carr":
+            return ["arr", [self.value(case, t[1], env) for _ in range(t[3])]]
         if k == "tup":
             return ["tup", [self.value(case, x, env) for x in t[1]]]
         assert k == "adt"
@@ -633,6 +659,10 @@ class Gen:
             return [k, self.subst(t[1], env)]
         if k == "arr":
             return ["arr", self.subst(t[1], env), t[2]]
+        if k == "lref":
+            return ["lref", t[1], self.subst(t[2], env)]
+        if k == "carr":
+            return ["carr", self.subst(t[1], env), t[2], t[3]]
         if k == "tup":
             return ["tup", [self.subst(x, env) for x in t[1]]]
         if k == "adt":
@@ -804,8 +834,10 @@ def ty_generic(t):
     k = t[0]
     if k == "param":
         return True
-    if k in ("opt", "vec", "box", "ref", "arr"):
-        return ty_generic(t[1])
+    if k in ("opt", "vec", "box", "ref", "arr", "carr"):
+        return ty_generic(t[1])        # a const parameter ([u8; N]) is not a type parameter
+    if k == "lref":
+        return ty_generic(t[2])        # nor is a lifetime
     if k == "tup":
         return any(ty_generic(x) for x in t[1])
     if k == "adt":
@@ -828,3 +860,10 @@ def bounds_coq(name, fs):
             refs.append("[]")
     return "generate_bounds (fun j => nth j [%s] false) (fun i _ => nth i [%s] []) %s" % (
         flags, "; ".join(refs), expansion_coq(name, fs))
+
+
+def item_where_coq(it):
+    """Gallina: the where clause of the impl emitted for the item (user predicates, then the inferred bounds)"""
+    units = [(it["name"], it["fields"])] if it["kind"] == "struct" else [(v["name"], v["fields"]) for v in it["variants"]]
+    n_user = len((it.get("generics") or {}).get("where", []))
+    return "impl_where_clause %d%%nat (enum_bounds %s)" % (n_user, clist("(" + bounds_coq(n, fs) + ")" for (n, fs) in units))
